@@ -8,6 +8,7 @@
 -/
 import Signac.Proofs.SchemaSpec
 import Signac.Proofs.SchemaGate
+import Signac.Proofs.SchemaGatePerm
 namespace Signac.C18
 open Signac Signac.Schema
 
@@ -315,5 +316,75 @@ example : syncGate [⟨"j1", [("a", .int 1)]⟩] [⟨"j2", [("a", .int 2)]⟩] =
     ∧ syncGate [⟨"j1", [("a", .int 1)]⟩, ⟨"j2", [("a", .int 2)]⟩]
                [⟨"j3", [("a", .int 2)]⟩, ⟨"j4", [("a", .int 1)]⟩] = false
     ∧ syncGate [⟨"j1", [("a", .int 1)]⟩] [⟨"j0", []⟩] = false := by decide
+
+/-! ### schema gate: order independence (P20) -/
+
+/- Lemmas: Signac/Proofs/SchemaGatePerm.lean.  `NoBoolIntClash jobs` is the hypothesis of
+   `schema_values_exact_partial` (no key under which one job holds a bool and another an `==`-equal int:
+   the class of F-6a); nothing stronger is needed.  Python `==` on JSON-born values is transitive without
+   any hypothesis (`pyEq_trans`: ints and floats are compared exactly, `True == 1 == 1.0`), so Mapping
+   equality of schemas is transitive without well-formedness. -/
+
+/-- Mapping equality of schemas is transitive (the well-formedness hypotheses are not used:
+    `schemaEq_trans_nohyp`). -/
+theorem schemaEq_trans (a b c : Schema) (ha : SchemaWF a) (hb : SchemaWF b) (hc : SchemaWF c)
+    (h1 : schemaEq a b = true) (h2 : schemaEq b c = true) : schemaEq a c = true :=
+  Signac.Schema.schemaEq_trans ha hb hc h1 h2
+
+/-- … in fact for arbitrary association lists. -/
+theorem schemaEq_trans_nohyp (a b c : Schema)
+    (h1 : schemaEq a b = true) (h2 : schemaEq b c = true) : schemaEq a c = true :=
+  Signac.Schema.schemaEq_trans' h1 h2
+
+/-- The SET of reported keys does not depend on the job order (no hypothesis). -/
+theorem detectSchema_perm_keys (jobs jobs' : List Job) (hp : jobs.Perm jobs') (k : String) :
+    k ∈ (detectSchema false jobs).map Prod.fst ↔ k ∈ (detectSchema false jobs').map Prod.fst :=
+  Signac.Schema.detectSchema_perm_keys hp k
+
+/-- Without the bool/int clash (and with Python-dict state points) the detected schema does not depend
+    on the job order, up to Mapping equality. -/
+theorem detectSchema_perm_schemaEq_partial (jobs jobs' : List Job) (hclash : NoBoolIntClash jobs)
+    (hj : ∀ j ∈ jobs, NodupKeysObj j.sp) (hp : jobs.Perm jobs') :
+    schemaEq (detectSchema false jobs) (detectSchema false jobs') = true :=
+  Signac.Schema.detectSchema_perm_schemaEq_partial hclash hj hp
+
+/-- The gate does not depend on the order of the source jobs when THESE are clash-free Python dicts
+    (nothing is asked of the destination) … -/
+theorem syncGate_perm_partial (src src' dst : List Job) (hclash : NoBoolIntClash src)
+    (hj : ∀ j ∈ src, NodupKeysObj j.sp) (hp : src.Perm src') :
+    syncGate src dst = syncGate src' dst :=
+  Signac.Schema.syncGate_perm_partial dst hclash hj hp
+
+/-- … nor on the order of the destination jobs when these are.  With `syncGate_perm_false`: the index
+    order matters only through F-6a. -/
+theorem syncGate_perm_partial_dst (src dst dst' : List Job) (hclash : NoBoolIntClash dst)
+    (hj : ∀ j ∈ dst, NodupKeysObj j.sp) (hp : dst.Perm dst') :
+    syncGate src dst = syncGate src dst' :=
+  Signac.Schema.syncGate_perm_partial_dst src hclash hj hp
+
+/-- non-vacuity: a clash-free corpus of Python dicts (int next to the equal float, nested mapping,
+    list) and a re-ordering of it -/
+example :
+    let jobs : List Job := [⟨"j1", [("a", .int 1), ("b", .arr [.int 1])]⟩,
+                            ⟨"j2", [("a", .flt 1 0 "1.0")]⟩,
+                            ⟨"j3", [("a", .obj [("x", .null)])]⟩]
+    let jobs' : List Job := [⟨"j2", [("a", .flt 1 0 "1.0")]⟩,
+                             ⟨"j3", [("a", .obj [("x", .null)])]⟩,
+                             ⟨"j1", [("a", .int 1), ("b", .arr [.int 1])]⟩]
+    NoBoolIntClash jobs ∧ (∀ j ∈ jobs, NodupKeysObj j.sp) ∧ jobs.Perm jobs'
+      ∧ schemaEq (detectSchema false jobs) (detectSchema false jobs') = true := by
+  refine ⟨noBoolIntClash_of_noBool (by decide), ?_,
+    List.perm_append_comm (l₁ := [_]) (l₂ := [_, _]), by decide⟩
+  intro j hj
+  simp only [List.mem_cons, List.not_mem_nil, or_false] at hj
+  rcases hj with hj | hj | hj <;> subst hj <;> simp [NodupKeysObj, NodupKeysVal, NodupKeysList]
+
+/-- the hypothesis is what fails on the F-6a corpus -/
+example : ¬ NoBoolIntClash f6aWitness := by
+  intro h
+  have := h "a" ⟨"j1", [("a", .bool true)]⟩ (by simp [f6aWitness]) ⟨"j2", [("a", .int 1)]⟩
+    (by simp [f6aWitness]) (.bool true) (.int 1) rfl rfl
+  revert this
+  decide
 
 end Signac.C18
